@@ -355,9 +355,7 @@ class Povm(QOperation):
             new_vec = to_vec_from_matrix_with_sparsity(
                 self.composite_system,
                 new_matrix,
-                eps_truncate_imaginary_part=mutil.calc_eps_truncate_for_spectrum(
-                    eigenvals, self.eps_truncate_imaginary_part
-                ),
+                eps_truncate_imaginary_part=self.eps_truncate_imaginary_part,
             )
             new_vecs.append(new_vec)
 
@@ -420,9 +418,7 @@ class Povm(QOperation):
             new_vec = to_vec_from_matrix_with_sparsity(
                 c_sys,
                 new_matrix,
-                eps_truncate_imaginary_part=mutil.calc_eps_truncate_for_spectrum(
-                    eigenvals, eps_truncate_imaginary_part
-                ),
+                eps_truncate_imaginary_part=eps_truncate_imaginary_part,
             )
             new_vecs.append(new_vec)
 
